@@ -21,8 +21,12 @@ import (
 	"encoding/json"
 	"fmt"
 	bfe_bufio "github.com/bfenetworks/bfe/bfe_bufio"
+	"io"
+	"net"
+	"os"
 	"sort"
 	"strings"
+	"time"
 
 	"bfeverif/harness/internal/vh"
 	"github.com/bfenetworks/bfe/bfe_basic"
@@ -31,6 +35,7 @@ import (
 	"github.com/bfenetworks/bfe/bfe_modules/mod_header"
 	"github.com/bfenetworks/bfe/bfe_modules/mod_redirect"
 	"github.com/bfenetworks/bfe/bfe_modules/mod_rewrite"
+	"github.com/bfenetworks/bfe/bfe_tls"
 )
 
 type actSpec struct {
@@ -224,8 +229,73 @@ func execRd(f []string) string {
 	return "ok url=" + u
 }
 
+type fakeConn struct{}
+
+func (fakeConn) Read(p []byte) (int, error)         { return 0, io.EOF }
+func (fakeConn) Write(p []byte) (int, error)        { return len(p), nil }
+func (fakeConn) Close() error                       { return nil }
+func (fakeConn) LocalAddr() net.Addr                { return &net.TCPAddr{IP: net.IPv4(10, 0, 0, 9), Port: 8080} }
+func (fakeConn) RemoteAddr() net.Addr               { return &net.TCPAddr{IP: net.IPv4(1, 2, 3, 4), Port: 5678} }
+func (fakeConn) SetDeadline(t time.Time) error      { return nil }
+func (fakeConn) SetReadDeadline(t time.Time) error  { return nil }
+func (fakeConn) SetWriteDeadline(t time.Time) error { return nil }
+
+// hv <req|rsp> <CMD> <HeaderName> <value template> : ONE mod_header SET/ADD action whose value may use %variables, loaded by
+// the real ActionFileListCheck + actionsConvert (preProcessParams / splitParam) and run by the real HeaderActionsDo on a
+// request with a fixed, fully populated state (client 1.2.3.4:5678, vip 9.8.7.6, local 10.0.0.9:8080, TLS state, ids,
+// route and backend).  result: rej:<class> | ok val=<values of the header joined by "|", "-" if empty>
+func execHv(f []string) string {
+	req, hreq, ok := mkReq("example.org", "/", "")
+	if !ok {
+		return "err:request"
+	}
+	conn := fakeConn{}
+	req.Session = bfe_basic.NewSession(conn)
+	req.Connection = conn
+	req.Session.SessionId = "sid-1"
+	req.Session.Vip = net.IPv4(9, 8, 7, 6)
+	req.Session.IsSecure = true
+	req.Session.Proto = "h2"
+	req.Session.TlsState = &bfe_tls.ConnectionState{Version: 0x7777, CipherSuite: 0xbeef, DidResume: true,
+		JA3Raw: "771,4865-4866,0-23,29-23,0", JA3Hash: "e7d705a3286e19ea42f587b344ee6865"}
+	req.ClientAddr = &net.TCPAddr{IP: net.IPv4(1, 2, 3, 4), Port: 5678}
+	req.LogId = "log-7"
+	req.Route.ClusterName = "cl1"
+	req.Backend.ClusterName, req.Backend.SubclusterName = "cl1", "sub1"
+	req.Backend.BackendName, req.Backend.BackendAddr = "b1", "10.1.1.1"
+	h := hreq.Header
+	typ := mod_header.ReqHeader
+	if f[1] == "rsp" {
+		req.HttpResponse = &bfe_http.Response{Header: make(bfe_http.Header)}
+		h = req.HttpResponse.Header
+		typ = mod_header.RspHeader
+	} else if f[1] != "req" {
+		return "bad-op"
+	}
+	cmd, val := f[2], f[4]
+	if val == "~" {
+		val = ""
+	}
+	conf := mod_header.ActionFileList{mod_header.ActionFile{Cmd: &cmd, Params: []string{f[3], val}}}
+	if err := mod_header.VerifC49Do(req, typ, conf); err != nil {
+		return classifyHR(err)
+	}
+	vals := h[bfe_http.CanonicalHeaderKey(f[3])]
+	out := strings.Join(vals, "|")
+	if hn, err := os.Hostname(); err == nil && hn != "" && strings.Contains(f[4], "bfe_server_name") {
+		out = strings.ReplaceAll(out, hn, "HOSTNAME")
+	}
+	if out == "" {
+		out = "-"
+	}
+	return "ok val=" + out
+}
+
 func exec(op string) string {
 	f := strings.Split(op, " ")
+	if len(f) == 5 && f[0] == "hv" {
+		return execHv(f)
+	}
 	if len(f) == 4 && f[0] == "hd" {
 		return execHd(f)
 	}
@@ -529,10 +599,53 @@ func genRd(r *vh.Rand) string {
 	return fmt.Sprintf("rd %s %s %s %s", pick(r, hosts), pick(r, paths), genQuery(r), a)
 }
 
+// every variable of the source table (mod_header.VariableHandlers), sorted: new ones are covered automatically
+var hvVars = func() []string {
+	var ks []string
+	for k := range mod_header.VariableHandlers {
+		ks = append(ks, k)
+	}
+	sort.Strings(ks)
+	return ks
+}()
+
+func genHv(r *vh.Rand) string {
+	v := func() string { return "%" + pick(r, hvVars) }
+	lit := func() string { return r.Pick("a", "x-", "=", ";max-age=3600", "__bsi=", "-b", "1", "_", "A", "z9") }
+	var t string
+	switch r.Intn(12) {
+	case 0, 1, 2:
+		t = v() // alone
+	case 3, 4:
+		t = lit() + v() + lit() // embedded in text
+	case 5:
+		t = v() + v() // two variables back to back
+	case 6:
+		t = lit() + v() + r.Pick(";", "-", "=", ".") + v()
+	case 7:
+		t = r.Pick("%bfe_unknown", "%bfe_vi", "%bfe_vipx", "a%nope-b", "%BFE_VIP", "%bfe_ssl_ja", "%bfe_ssl_ja3", "%bfe_ssl_ja3_") // unknown variable
+	case 8:
+		t = r.Pick("a%", "%", v()+"%", "%%"+"%") // % at the end
+	case 9:
+		t = r.Pick("%%", "%%bfe_vip", "a%%b", "%%%bfe_vip", "100%%", "%%"+pick(r, hvVars)+"-"+v()) // escaped
+	case 10:
+		t = v() + r.Pick("A", "9", "_x", "-") // a character right after the name (9 and _x extend the name)
+	default:
+		t = lit() + lit()
+	}
+	side, typ := "REQ", "req"
+	if r.Bool() {
+		side, typ = "RSP", "rsp"
+	}
+	return fmt.Sprintf("hv %s %s_HEADER_%s %s %s", typ, side, r.Pick("SET", "ADD"), r.Pick("X-A", "x-var", "Set-Cookie"), t)
+}
+
 func gen(r *vh.Rand) string {
 	switch r.Intn(10) {
-	case 0, 1:
+	case 0:
 		return genHd(r)
+	case 1:
+		return genHv(r)
 	case 2:
 		return genRd(r)
 	}
@@ -571,4 +684,13 @@ func gen(r *vh.Rand) string {
 	return fmt.Sprintf("%s %s %s %s %s %s", loader, pick(r, hosts), pick(r, paths), genQuery(r), hdr, strings.Join(acts, ";"))
 }
 
-func main() { vh.Main(gen, exec) }
+func main() {
+	// every variable of the source table alone and embedded, on both sides (deterministic, runs first)
+	vh.Pre = func(emit func(op string), thorough bool) {
+		for _, k := range hvVars {
+			emit("hv req REQ_HEADER_SET X-A %" + k)
+			emit("hv rsp RSP_HEADER_ADD X-A a-%" + k + "-b")
+		}
+	}
+	vh.Main(gen, exec)
+}
